@@ -72,11 +72,52 @@ theorem acc_count (hl : CountLaw V) (a : Acc V) (arg : V) (vals : List V) :
     rw [e0, hc]
     simp [engReduce, aggReduce]
 
-theorem acc_avg (hl : CountLaw V) (a : Acc V) (arg : V) (vals : List V) :
+/-- `1` is the only count that compares equal to `1` (true of `Int`; true of IEEE doubles below
+2^53 members) -/
+def MeanLaw (V : Type) [Val V] : Prop := ∀ n : Nat, eq (ofInt ((n + 1 : Nat) : Int) : V) one = decide (n = 0)
+
+theorem meanUpd_count (acc : V × V) (v : V) : (meanUpd acc v).2 = add acc.2 one := by
+  unfold meanUpd
+  split
+  · rfl
+  · split <;> rfl
+
+/-- after the first member the engine's running mean takes the reference's steps -/
+theorem addToMean_tail (hl : CountLaw V) (hm : MeanLaw V) (rest : List V) (mean : V) (n : Nat) :
+    rest.foldl addToMean (mean, ofInt ((n + 1 : Nat) : Int)) = rest.foldl meanUpd (mean, ofInt ((n + 1 : Nat) : Int)) := by
+  induction rest generalizing mean n with
+  | nil => rfl
+  | cons v vs ih =>
+    simp only [List.foldl_cons]
+    have hstep : addToMean (mean, ofInt ((n + 1 : Nat) : Int)) v = meanUpd (mean, ofInt ((n + 1 : Nat) : Int)) v := by
+      unfold addToMean
+      simp only [hl (n + 1), hm (n + 1)]
+      simp
+    rw [hstep]
+    have hc : meanUpd (mean, ofInt ((n + 1 : Nat) : Int)) v = ((meanUpd (mean, ofInt ((n + 1 : Nat) : Int)) v).1, ofInt ((n + 1 + 1 : Nat) : Int)) := by
+      have h2 := meanUpd_count (mean, ofInt ((n + 1 : Nat) : Int)) v
+      simp only [hl (n + 1)] at h2
+      exact Prod.ext rfl h2
+    rw [hc]
+    exact ih _ (n + 1)
+
+/-- **the engine's `avg` is the reference's**: the running mean from the first member on -/
+theorem engReduce_avg (hl : CountLaw V) (hm : MeanLaw V) (p : V) (v0 : V) (rest : List V) :
+    engReduce "avg" p (v0 :: rest) = aggReduce "avg" p (v0 :: rest) := by
+  have h0 : addToMean ((zero : V), (zero : V)) v0 = (v0, ofInt ((0 + 1 : Nat) : Int)) := by
+    unfold addToMean
+    have e0 : (zero : V) = ofInt ((0 : Nat) : Int) := rfl
+    simp only [e0, hl 0, hm 0]
+    simp
+  simp only [engReduce, aggReduce, List.foldl_cons, h0]
+  rw [addToMean_tail hl hm rest v0 0]
+  rfl
+
+theorem acc_avg (a : Acc V) (arg : V) (vals : List V) :
     (a.run "avg" arg vals).2 = if vals.isEmpty then none else some (engReduce "avg" arg vals) := by
   have key : ∀ (vals : List V) (s : Acc V),
-      (vals.foldl (Acc.feed "avg") s).sum = vals.foldl add s.sum ∧
-      (vals.foldl (Acc.feed "avg") s).count = vals.foldl (fun (c : V) _ => add c one) s.count ∧
+      ((vals.foldl (Acc.feed "avg") s).mean, (vals.foldl (Acc.feed "avg") s).count)
+        = vals.foldl addToMean (s.mean, s.count) ∧
       (vals.foldl (Acc.feed "avg") s).hasValue = (s.hasValue || !vals.isEmpty) := by
     intro vals
     induction vals with
@@ -84,20 +125,18 @@ theorem acc_avg (hl : CountLaw V) (a : Acc V) (arg : V) (vals : List V) :
     | cons v vs ih =>
       intro s
       simp only [List.foldl_cons]
-      obtain ⟨h1, h2, h3⟩ := ih (Acc.feed "avg" s v)
-      rw [h1, h2, h3]
+      obtain ⟨h1, h2⟩ := ih (Acc.feed "avg" s v)
+      rw [h1, h2]
       simp [Acc.feed]
-  obtain ⟨h1, h2, h3⟩ := key vals (a.reset "avg" arg)
+  obtain ⟨h1, h2⟩ := key vals (a.reset "avg" arg)
   unfold Acc.run
-  simp only [h3, Acc.val, h1, h2]
+  simp only [h2, Acc.val]
+  have hm := congrArg (fun t => t.1) h1
+  simp only at hm
+  rw [hm]
   cases vals with
   | nil => simp [Acc.reset]
-  | cons v vs =>
-    have hc := foldl_count hl (v :: vs) 0
-    have e0 : (ofInt 0 : V) = ofInt ((0 : Nat) : Int) := rfl
-    simp only [Acc.reset, zero, Bool.false_or, List.isEmpty_cons, Bool.not_false, if_true, Bool.false_eq_true, if_false]
-    rw [e0, hc]
-    simp [engReduce, zero]
+  | cons v vs => simp [Acc.reset, engReduce]
 
 theorem acc_group (a : Acc V) (arg : V) (vals : List V) :
     (a.run "group" arg vals).2 = if vals.isEmpty then none else some (engReduce "group" arg vals) := by
@@ -230,7 +269,7 @@ theorem acc_run_eq (hl : CountLaw V) (op : String) (hop : engineAccumulators.con
   · exact acc_extreme "max" (Or.inl rfl) a arg vals
   · exact acc_extreme "min" (Or.inr rfl) a arg vals
   · exact acc_count hl a arg vals
-  · exact acc_avg hl a arg vals
+  · exact acc_avg a arg vals
   · exact acc_group a arg vals
   · exact acc_spread "stddev" (Or.inl rfl) a arg vals
   · exact acc_spread "stdvar" (Or.inr rfl) a arg vals
